@@ -34,13 +34,14 @@ def field_ints(term, names):
 def run(tier, seed):
     v = lib.Verdict(PID, tier, seed, "exploration")
     d = lib.outdir(PID)
-    files = {k: os.path.join(d, f"{k}.ndjson") for k in ("ranges", "cross", "mut", "valid", "obs")}
+    files = {k: os.path.join(d, f"{k}.ndjson") for k in ("ranges", "cross", "mut", "valid", "obs", "props")}
     r = lib.tlc("gen/Gen_Elixir.tla", "gen/Gen_Elixir.cfg", PID, "gen", workers=1,
-                env={"OUT_RANGES": files["ranges"], "OUT_CROSS": files["cross"], "OUT_MUT": files["mut"], "OUT_VALID": files["valid"]})
+                env={"OUT_RANGES": files["ranges"], "OUT_CROSS": files["cross"], "OUT_MUT": files["mut"], "OUT_VALID": files["valid"], "OUT_PROPS": files["props"]})
     if r.rc != 0:
         raise lib.ToolError("Elixir universe generator failed")
     ranges, cross, muts, valid = (lib.read_ndjson(files[k]) for k in ("ranges", "cross", "mut", "valid"))
-    lib.harness(["elixir-run", files["ranges"], files["cross"], files["mut"], files["valid"], files["obs"]])
+    props = lib.read_ndjson(files["props"])
+    lib.harness(["elixir-run", files["ranges"], files["cross"], files["mut"], files["valid"], files["obs"], files["props"]])
     obs = lib.read_ndjson(files["obs"])
     by = {}
     for o in obs:
@@ -173,9 +174,46 @@ def run(tier, seed):
         if not o["map_roundtrip_same"]:
             v.violation("map -> proplist -> map is not the identity", case)
 
+    # ---- proplist / map helpers against Elixir!PropCases
+    def mapset(m):
+        """a denoted map or a spec 'mapset' -> canonical JSON text, entry order ignored, nested maps too"""
+        def canon(x):
+            if isinstance(x, dict):
+                if x.get("k") in ("map", "mapset"):
+                    kv = [[canon(p[0]), canon(p[1])] for p in x.get("kv", [])]
+                    kv.sort(key=lambda p: json.dumps(p, sort_keys=True))
+                    return {"k": "map", "kv": kv}
+                return {kk: canon(vv) for kk, vv in x.items() if kk not in ("rep",)}
+            if isinstance(x, list):
+                return [canon(y) for y in x]
+            return x
+        return json.dumps(canon(m), sort_keys=True)
+    if len(by.get("props", [])) != len(props):
+        raise lib.ToolError("harness did not answer every proplist case")
+    for c, o in zip(props, by.get("props", [])):
+        v.case("props " + json.dumps(c["list"]))
+        case = {"proplist": c["list"], "well_formed": c["well_formed"], "duplicate_keys": c["dup"]}
+        want_map = {"k": "map", "kv": c["map"]}
+        for name in ("to_map", "normalized", "recursive"):
+            if isinstance(o[name], dict) and ("panic" in o[name] or "error" in o[name]):
+                v.violation(f"{name} failed on a list", {**case, "got": o[name]})
+        if mapset(o["to_map"]) != mapset(want_map):
+            (v.violation if not c["dup"] else v.add_drift)("proplist_to_map does not hold the entries of the proplist" + (" (duplicate keys: the spec takes the last occurrence, as coded)" if c["dup"] else ""),
+                                                          {**case, "got": o["to_map"], "expected_entries": c["map"]})
+        if o["map_to_proplist"] is None or o["map_again"] is None or mapset(o["map_again"]) != mapset(o["to_map"]):
+            v.violation("map -> proplist -> map is not the identity", {**case, "map": o["to_map"], "proplist": o["map_to_proplist"]})
+        else:
+            pl = o["map_to_proplist"]
+            pairs = [] if pl.get("k") == "nil" else [[e["e"][0], e["e"][1]] for e in pl["e"] if e.get("k") == "tuple" and len(e["e"]) == 2]
+            if mapset({"k": "map", "kv": pairs}) != mapset(o["to_map"]) or (pl.get("k") != "nil" and len(pairs) != len(pl["e"])):
+                v.violation("map_to_proplist loses or alters entries", {**case, "map": o["to_map"], "proplist": pl})
+        if not lib.same_value(o["normalized"], c["normalized"]):
+            v.violation("normalize_proplist does not keep the pairs (bare atoms as {Atom, true}) in order", {**case, "got": o["normalized"], "expected": c["normalized"]})
+        if mapset(o["recursive"]) != mapset(c["recursive"]):
+            (v.violation if not c["dup"] else v.add_drift)("to_map_recursive differs from the recursive conversion of the spec", {**case, "got": o["recursive"], "expected": c["recursive"]})
     v.sample({"range": by["range"][7]["first"] + ".." + by["range"][7]["last"] + "//" + by["range"][7]["step"], "len": by["range"][7]["len"]})
     v.cov["records"] = {"ranges_same_anchor": len(ranges), "ranges_cross_anchor": len(cross), "valid_struct_terms": len(valid), "mutated_struct_terms": len(muts),
-                        "wrapper_round_trips": len(by.get("wrapper", [])), "builder_cases": len(by.get("builder", [])), "proplists": len(by.get("proplist", []))}
+                        "wrapper_round_trips": len(by.get("wrapper", [])), "builder_cases": len(by.get("builder", [])), "proplists": len(by.get("proplist", [])), "proplist_cases_from_spec": len(props)}
     v.cov["rule"] = ("ranges: first, last in {min..min+5, -3..3, max-5..max} (same anchor), step in {-3..3 \\ {0}... incl. 0, min, max}; len / size_hint / is_empty / first 40 iterated elements / membership of "
                      "every element and of neighbours compared with Elixir.tla; struct terms: from_term on the built term and on decode(spec encoding); distinct = record")
     v.assumptions += ["TLC integers are 32-bit: same-anchor arithmetic is exact in the spec, the six cross-anchor rows were derived by hand and are checked for internal consistency by Python big integers",
